@@ -475,6 +475,57 @@ def rule_e_siblings(chk):
             chk.violation("K2-siblings", inst, list(unit.functions.values())[0], "thread pool implementation lacks slots %s" % missing)
 
 
+def rule_in_order(chk, prog):
+    """K11-inorder: what reaches the block writer reaches it in the order of the I/O sequence numbers, whatever order the
+    pool hands blocks back in and however long the backlog is.  Every call of a function that passes a block on to the
+    block writer (sqfs_block_writer_t.write_data_block) is made with the head of the ordered I/O queue, taken off under the
+    test `head->io_seq_num == io_deq_seq_num`.  A block that goes there straight from the pool overtakes the blocks that
+    wait in the queue (the open fragment block in flight), and where it lands depends on the backlog."""
+    writers = set()
+    for f in prog.functions():
+        if f.decl or not f.unit.src.startswith("lib/sqfs/src/block_processor/"):
+            continue
+        f.build()
+        if any(slot_call(c) == ("struct.sqfs_block_writer_t", "write_data_block") for c in f.calls()):
+            writers.add(f)
+    if not writers:
+        chk.broke("no function of the block processor hands a block to the block writer")
+        return 0
+    n = 0
+    for f in prog.functions():
+        if f.decl or not f.unit.src.startswith("lib/sqfs/src/block_processor/") or f in writers:
+            continue
+        f.build()
+        for c in f.calls():
+            g = prog.fn(c.callee, f.unit) if c.callee else None
+            if g not in writers:
+                continue
+            n += 1
+            chk.analysed(f)
+            inst = "%s:%s@%d" % (f.name, g.name, c.line)
+            blk = [a for a in c.ops if (getattr(a, "ty", "") or "").startswith("%struct.sqfs_block_t")]
+            def _is_queue_load(x):
+                if not (x.is_inst and x.op == "load"):
+                    return False
+                q = strip_casts(x.ops[0])
+                return q.is_inst and q.op == "getelementptr" and bool(q.field()) and q.field()[1] == "io_queue"
+            from_queue = bool(blk) and all(any(_is_queue_load(x) for x in backward_slice(a, phi_control=False)) for a in blk)
+            in_turn = False
+            for cond, outcome, br in f.guards_at(c.bb):
+                if cond.is_inst and cond.op == "icmp" and cond.pred in ("eq", "ne") and outcome == (cond.pred == "eq"):
+                    names = {n_ for (_s, n_) in fields_in_slice(cond)}
+                    if {"io_seq_num", "io_deq_seq_num"} <= names:
+                        in_turn = True
+            if from_queue and in_turn:
+                chk.ok("K11-inorder", inst, c, "the block is the head of the I/O queue and it is its turn")
+            else:
+                chk.violation("K11-inorder", inst, c, "a block is handed to the block writer %s: it overtakes the blocks waiting in the "
+                              "I/O queue, so where it (and the file it ends or starts) lands depends on what was still in flight, "
+                              "that is on the backlog" % ("although it was not taken off the ordered I/O queue" if not from_queue
+                                                          else "without the test that it is its turn (io_seq_num == io_deq_seq_num)"))
+    return n
+
+
 def run(chk):
     chk.explanation = (
         "The implementation's determinism argument (doc/parallelism.txt) as structural rules on LLVM IR: K3 everything "
@@ -484,7 +535,7 @@ def run(chk):
         "submitting thread; K2 no environment query in the packers' closures except the documented ones, and the CPU "
         "count reaches only the worker count; comparators never order by address; both pool implementations fill all "
         "slots; plus the pool discipline (C09 rules) and the in-flight copy / fragment cache rules (C08) that the "
-        "'independent of schedule and backlog' claim rests on. Byte equality with the serial build is not decided. K3 also demands stateless workers (stores only into the work item and codec-library structs); readdir is accepted iff C11's A3 rules hold for that call site. K2-backlog: no hand-over of a block to the pool is control-dependent on the backlog counters.")
+        "'independent of schedule and backlog' claim rests on. Byte equality with the serial build is not decided. K3 also demands stateless workers (stores only into the work item and codec-library structs); readdir is accepted iff C11's A3 rules hold for that call site. K2-backlog: no hand-over of a block to the pool is control-dependent on the backlog counters. K11-inorder: a block reaches the block writer only as the head of the ordered I/O queue and in its turn; K13-highwater: recording the size of one block never lowers the count of valid size words (the order of these records depends on the backlog).")
     chk.assumptions = ["done-list ordering of the pool is decided (as far as it is structural) by the C09 check"]
     prog = load_program("gensquashfs")
     reach = rule_a_confinement(chk, prog)
@@ -494,6 +545,13 @@ def run(chk):
     chk.floor("K3-params", 1)
     rule_backlog_flow(chk, prog)
     chk.floor("K2-backlog", 3)
+    rule_in_order(chk, prog)
+    chk.floor("K11-inorder", 1)
+    # the order in which the sizes of a file's blocks are recorded depends on the backlog: a later record must not undo an
+    # earlier one (K13-highwater of C01)
+    from .c01 import rule_highwater
+    rule_highwater(chk, prog)
+    chk.floor("K13-highwater", 1)
     chk.floor("K11-seqstamp", 2)
     rule_c_env(chk, {"gensquashfs": prog, "tar2sqfs": load_program("tar2sqfs")})
     rule_d_comparators(chk, prog)
